@@ -175,6 +175,8 @@ structure Stack where
   refreshLog : List (Addr × SvcKey × Nat × Nat) := []   -- ghost: (source, service, time, ttl) of every TimedStore.refresh of found_services
   armLog : List (Cb × Nat × Nat) := []           -- ghost: (expiry callback, time, ttl) of every TimedStore.refresh that stores an entry (both stores)
   offLog : List (Nat × OEv × Nat) := []          -- ghost: (instance, event, time) of every start / stop of an instance and of every offer / StopOffer it hands to queue_send
+  lisLog : List (LId × Bool × SvcKey × Addr) := []   -- ghost: every offered (true) / stopped notification handed to an application listener, in order
+  lisDup : Bool := false                             -- ghost: some application listener was registered while it was registered already
   ansLog : List (Nat × Addr × Nat × Nat) := []   -- ghost: (instance, requester, time, delay) of every deferred answer to a multicast FindService
   findMarks : List (Nat × Nat) := []             -- ghost: (find task, time) of its creation and of every round step it runs
   subMarks : List (Option Nat × Nat) := []       -- ghost: (none, time) of every subscriber start; (some n, time) of every refresh round, run by subscribe task n
@@ -576,9 +578,12 @@ def stepSubscribe (s : Stack) (tid : Tid) (t : TaskSt) : Stack :=
 
 /-! #### discovery -/
 
+/-- ghost: note a notification handed to application listener id -/
+def logLis (s : Stack) (id : LId) (offered : Bool) (k : SvcKey) (a : Addr) : Stack := { s with lisLog := s.lisLog ++ [(id, offered, k, a)] }
+
 def listenerOffered (s : Stack) (l : Listener) (k : SvcKey) (a : Addr) : Stack :=
   match l with
-  | .ext id => s.emit (.offered id k a)
+  | .ext id => (s.logLis id true k a).emit (.offered id k a)
   | .auto g =>
     match g.forService k.toService with
     | none => s
@@ -586,7 +591,7 @@ def listenerOffered (s : Stack) (l : Listener) (k : SvcKey) (a : Addr) : Stack :
 
 def listenerStopped (s : Stack) (l : Listener) (k : SvcKey) (a : Addr) : Stack :=
   match l with
-  | .ext id => s.emit (.stopped id k a)
+  | .ext id => (s.logLis id false k a).emit (.stopped id k a)
   | .auto g =>
     match g.forService k.toService with
     | none => s
@@ -670,12 +675,17 @@ def replay (s : Stack) (offered : Bool) (filter : Option Service) (l : Listener)
 
 def watchKey (f : Service) (p : Service × List Listener) : Bool := decide (p.1.key = f.key)
 
+/-- is the application listener registered with some filter or for all services? -/
+def isRegistered (s : Stack) (id : LId) : Bool := decide (id ∈ s.watchAll) || s.watched.any (fun p => decide (Listener.ext id ∈ p.2))
+/-- ghost: note whether a registration found the listener registered already -/
+def markDup (s : Stack) (dup : Bool) : Stack := { s with lisDup := s.lisDup || dup }
+
 /-- `watch_service(service, listener)` -/
 def watchService (s : Stack) (f : Service) (l : Listener) : Stack :=
   let watched := if s.watched.any (watchKey f) then
       s.watched.map (fun p => if watchKey f p then (p.1, insertListener p.2 l) else p)
     else s.watched ++ [(f, [l])]
-  ({ s with watched }).replay true (some f) l
+  (({ s with watched }).replay true (some f) l).markDup (match l with | .ext id => s.isRegistered id | _ => false)
 
 /-- `stop_watch_service(service, listener)`; KeyError if the listener is not registered -/
 def stopWatchService (s : Stack) (f : Service) (l : Listener) : Stack :=
@@ -687,7 +697,7 @@ def stopWatchService (s : Stack) (f : Service) (l : Listener) : Stack :=
   ({ s with watched }).replay false (some f) l
 
 def watchAllServices (s : Stack) (id : LId) : Stack :=
-  ({ s with watchAll := insertSorted s.watchAll id }).replay true none (.ext id)
+  (({ s with watchAll := insertSorted s.watchAll id }).replay true none (.ext id)).markDup (s.isRegistered id)
 
 def stopWatchAllServices (s : Stack) (id : LId) : Stack :=
   if id ∉ s.watchAll then s.emit (.raised .key) else
